@@ -20,6 +20,14 @@ Qed.
 Lemma earth_new a f w : Earth___init__ Rops (VObj cEarth [VNone]) (ell a f w) = earth a f w.
 Proof. pyrunx. reflexivity. Qed.
 
+(* e.set(E) replaces the ellipsoid and nothing else: the object is the one Earth(E) builds *)
+Lemma earth_set a0 f0 w0 a f w :
+  Earth_set Rops (earth a0 f0 w0) (ell a f w) = VTuple [earth a f w; VNone].
+Proof. pyrunx. reflexivity. Qed.
+Lemma earth_set_not_ellipsoid a0 f0 w0 x :
+  Earth_set Rops (earth a0 f0 w0) (VFloat x) = VErr TypeError.
+Proof. pyrunx. reflexivity. Qed.
+
 Lemma ell_eq a a' f f' w w' : a = a' -> f = f' -> w = w' -> ell a f w = ell a' f' w'.
 Proof. intros -> -> ->. reflexivity. Qed.
 
